@@ -23,7 +23,7 @@ type axisSource struct {
 	// entry i of the list belongs to entry i of sibling lists (starts/ends/steps) or is a position in its own
 	// right (perm, indices): the list must never be reordered
 	ordered bool
-	arm9a map[string]bool
+	arm9a   map[string]bool
 }
 
 // frozen table, confirmed by reading every operator (DESIGN §4 R9)
@@ -1000,18 +1000,18 @@ func (c *Ctx) derivesFromShape(v ssa.Value, reach map[*ssa.Function]bool, depth 
 // Conditions and values that depend on anything else are unknown and never reported.
 
 type axisCell struct {
-	rank    int64
-	extents []int64
-	axis    int64           // scalar sources
-	lists   map[int64][]int64 // list-valued inputs (by input position)
-	field   []int64         // list-valued attribute
-	absent  map[int64]bool
-	shapes  map[int64][]int64 // shapes of further inputs (input 0: rank/extents)
-	outShape []int64          // expected argument of tensor.WithShape(list) (nil: not checked)
-	refuse  bool              // the request is invalid: Reshape must not be reached with an acceptable shape
-	norm    []int64 // the normalised axes, in the order given
-	shape   []int64 // expected argument of Reshape (nil: not checked)
-	desc    string
+	rank     int64
+	extents  []int64
+	axis     int64             // scalar sources
+	lists    map[int64][]int64 // list-valued inputs (by input position)
+	field    []int64           // list-valued attribute
+	absent   map[int64]bool
+	shapes   map[int64][]int64 // shapes of further inputs (input 0: rank/extents)
+	outShape []int64           // expected argument of tensor.WithShape(list) (nil: not checked)
+	refuse   bool              // the request is invalid: Reshape must not be reached with an acceptable shape
+	norm     []int64           // the normalised axes, in the order given
+	shape    []int64           // expected argument of Reshape (nil: not checked)
+	desc     string
 }
 
 type axisHit struct {
